@@ -18,6 +18,8 @@ pub enum UCICommand {
     },
     Stop,
     Quit,
+    #[cfg(rce_verif)]
+    VerifDump,
 }
 
 #[derive(Debug, Clone, PartialEq, Eq)]
@@ -44,6 +46,8 @@ impl UCICommand {
             }
             "stop" => Ok(Self::Stop),
             "quit" => Ok(Self::Quit),
+            #[cfg(rce_verif)]
+            "verifdump" => Ok(Self::VerifDump),
             _ => Err(format!("Unrecognized command: {command}")),
         }
     }
